@@ -46,8 +46,12 @@ type refMon struct {
 // check verifies the reference set of the given live databases.
 func (m *refMon) check(when string, dbs []*liveDB, wit func() map[string]any) {
 	refs := map[string]string{}
+	var pins []any // the described level lists stay referenced until existence was checked (no check-then-delete window)
+	defer func() { runtime.KeepAlive(pins) }()
 	for _, l := range dbs {
-		for li, lvl := range l.db.VerifLayout().Levels {
+		lay := l.db.VerifLayout()
+		pins = append(pins, lay.Pin)
+		for li, lvl := range lay.Levels {
 			for _, t := range lvl {
 				refs[t.URI] = fmt.Sprintf("live level set of %s (L%d)", l.name, li)
 			}
